@@ -131,6 +131,9 @@ def impl(case):
         call = case.get("call") or {}
         if call.get("scale"):
             upa = np.array(a[1], dtype=np.float64) / call["scale"]
+            if sum(a[1]) % 3 == 0 and a[2][0] == 0:
+                # areas above 2^24 that differ by one unit: the ranking must not go through float32 (round-5 seed)
+                upa = np.where(np.array(a[1]) > 0, 4.0e7 + np.array(a[1], dtype=np.float64), 0.0)
             if call["api"] == "kernel":
                 st, v = call_impl(core.main_upstream, arr, upa, a[2][0] / call["scale"])
             else:
